@@ -251,7 +251,9 @@ class YAMLSpecification(Specification):
             specification.
         :returns: A set of variable names seen.
         """
-        dep_types = ["path", "git", "spack"]
+        # The dependency sections that hold a list of named items (the
+        # "spack" section is a single mapping).
+        dep_types = ["paths", "git"]
 
         if "dependencies" not in self.environment:
             return keys_seen
